@@ -18,7 +18,7 @@ EXTENDS Wrap, Json, IOUtils
 Trace == ndJsonDeserialize(IOEnv.VERIF_TRACE)
 
 Soft == {"C19.right_maximal", "C19.left_maximal", "C19.run_literals",
-         "C12.match_longest", "C12.literal_justified", "C11.cost_optimal", "C11.not_above_witness", "C00.witness_invalid"}
+         "C12.match_longest", "C12.literal_justified", "C12.no_longer_match", "C11.cost_optimal", "C11.not_above_witness", "C00.witness_invalid"}
 
 MaxHard == 3   \* failing events recorded per trace before the rest is skipped
 
